@@ -71,15 +71,38 @@ def vbc(repo: Repo) -> List[Ob]:
         init_lv = {"self": frozenset({1, 2})} if fi.cls.name in ("ProductState", "Envelope") else {}
         lt = LevelTracker(["self"], init_lv)
 
+        # boolean flag locals (`resolved = False` … `resolved = True` … `if not resolved: raise`): assigned nothing but True/False
+        flag_vals: Dict[str, set] = {}
+        for a_ in walk_no_nested(fi.node):
+            if isinstance(a_, ast.Assign) and len(a_.targets) == 1 and isinstance(a_.targets[0], ast.Name):
+                flag_vals.setdefault(a_.targets[0].id, set()).add(a_.value.value if isinstance(a_.value, ast.Constant) and isinstance(a_.value.value, bool) else "other")
+        flags_ = {n_ for n_, vs in flag_vals.items() if vs <= {True, False} and n_ not in fi.params
+                  and not any(isinstance(y, ast.Name) and y.id == n_ and isinstance(y.ctx, ast.Store) and not isinstance(p_, ast.Assign)
+                              for p_ in ast.walk(fi.node) for y in ast.iter_child_nodes(p_))}
+
         def transfer(s, lab, d, st):
-            w, lv = st
+            w, lv, fl = st
+            a_ = s.ast
+            if flags_ and s.kind in ("test", "assert") and lab in ("T", "F"):
+                t_ = a_
+                truth = lab == "T"
+                while isinstance(t_, ast.UnaryOp) and isinstance(t_.op, ast.Not):
+                    t_, truth = t_.operand, not truth
+                if isinstance(t_, ast.Name) and t_.id in flags_:
+                    known_ = dict(fl).get(t_.id)
+                    if known_ is not None and known_ != truth:
+                        return []              # this branch is not taken with the flag's value on this path
+                    fl = tuple(sorted({**dict(fl), t_.id: truth}.items()))
+            if flags_ and s.kind == "stmt" and isinstance(a_, ast.Assign) and len(a_.targets) == 1 and isinstance(a_.targets[0], ast.Name) and a_.targets[0].id in flags_ \
+                    and isinstance(a_.value, ast.Constant):
+                fl = tuple(sorted({**dict(fl), a_.targets[0].id: a_.value.value}.items()))
             outs = lt.transfer(s, lab, d, lv)
             pw = _phys_write(s)
             if pw and w is None:
                 w = f"{pw} (line {s.lineno})"
-            return [(w, o) for o in outs]
+            return [(w, o, fl) for o in outs]
 
-        seen = explore(cfg, (None, lt.init), transfer)
+        seen = explore(cfg, (None, lt.init, tuple()), transfer)
         k = 0
         for n in cfg.nodes:
             fail = None
@@ -94,7 +117,7 @@ def vbc(repo: Repo) -> List[Ob]:
             k += 1
             n_exits += 1
             key = f"{fail}#{k}"
-            writes = sorted({w for w, _ in seen[n] if w})
+            writes = sorted({st_[0] for st_ in seen[n] if st_[0]})
             if writes:
                 obs.append(bad("VBC", fi, key, props, n.ast if n.kind != "assert" else n.stmt,
                                f"this `{fail}` rejects the request after the state was already modified on the same path: {writes[0]}"))
